@@ -140,18 +140,10 @@ def stepLine (st : State) (ws : List String) : State × String :=
     Observation: `<result> | <client 0> | <client 1>`, a client = `size bytes owned term cap=<_capacity> hr=<head-room|-> <kind>`
     or `dead` once it was closed. -/
 
-structure DState where
-  st : State
-  dead : List Bool
-
-def dinit : DState := { st := init0, dead := [false, false] }
+def dinit : DState := cinit 2 regionInit
 
 def parseOutcome (t : String) : Option Outcome :=
   if t == "wb" then some .wb else if t == "err" then some .err else t.toNat?.map .cnt
-
-def runBOps (st : State) (k : Nat) (c : Nat) : List BOp → Option State
-  | [] => some st
-  | b :: bs => do let st ← step st k (b.op c); runBOps st k c bs
 
 def clientObs (d : DState) (c : Nat) : String :=
   if d.dead.getD c true then "dead" else
@@ -171,41 +163,31 @@ def sendStr (offered : Nat) (o : Outcome) : Option Nat → String
     | .err => s!"send={offered}>err"
     | .cnt _ => s!"send={offered}>{k}"
 
-def clientLine (d : DState) (k : Nat) (ws : List String) : DState × String :=
+/-- executes `clientStep` (Client.lean – the function `client_backlog_faithful` speaks about) and prints its result -/
+def clientEvent (d : DState) (k c : Nat) (ev : CEv) : DState × String :=
   let fin (d : DState) (res : String) := (d, res ++ " | " ++ clientObs d 0 ++ " | " ++ clientObs d 1)
+  if c ≥ 2 then (d, "bad-op") else
+  match clientStep d k c ev with
+  | none => (dinit, "FAULT")
+  | some (d', r) =>
+    match r, ev with
+    | .dead, _ => fin d' "dead"
+    | .idle, _ => fin d' "idle"
+    | .wrote closing sent post, .write data o =>
+      fin d' s!"ret={if closing then 0 else 1} post={post} {sendStr data.length o sent}"
+    | .readied closed sent onWrite offered, .ready o =>
+      fin d' s!"cb={if closed then "C" else if onWrite then "W" else "-"} {sendStr offered o sent}"
+    | _, _ => (d, "bad-op")
+
+def clientLine (d : DState) (k : Nat) (ws : List String) : DState × String :=
   match ws with
   | ["cw", c, hex, o] =>
     match c.toNat?, fromHex hex, parseOutcome o with
-    | some c, some data, some o =>
-      if c ≥ 2 then (d, "bad-op") else
-      if d.dead.getD c true then fin d "dead" else
-      match d.st.getBuf c with
-      | none => (d, "bad-op")
-      | some b =>
-        let (ops, closing, sent) := writeOps b.size data o
-        match runBOps d.st k c ops with
-        | none => (dinit, "FAULT")
-        | some st' =>
-          let d' : DState := { st := st', dead := if closing then d.dead.set c true else d.dead }
-          let post := if closing then 0 else (st'.getBuf c).map Buf.size |>.getD 0
-          fin d' s!"ret={if closing then 0 else 1} post={post} {sendStr data.length o sent}"
+    | some c, some data, some o => clientEvent d k c (.write data o)
     | _, _, _ => (d, "bad-op")
   | ["cr", c, o] =>
     match c.toNat?, parseOutcome o with
-    | some c, some o =>
-      if c ≥ 2 then (d, "bad-op") else
-      if d.dead.getD c true then fin d "dead" else
-      match d.st.getBuf c with
-      | none => (d, "bad-op")
-      | some b =>
-        -- the harness delivers the event only to a client that is registered for write-readiness: backlog not empty
-        if b.size = 0 then fin d "idle" else
-        let (ops, closed, sent, onWrite) := readyOps b.size o
-        match runBOps d.st k c ops with
-        | none => (dinit, "FAULT")
-        | some st' =>
-          let d' : DState := { st := st', dead := if closed then d.dead.set c true else d.dead }
-          fin d' s!"cb={if closed then "C" else if onWrite then "W" else "-"} {sendStr b.size o sent}"
+    | some c, some o => clientEvent d k c (.ready o)
     | _, _ => (d, "bad-op")
   | _ => (d, "bad-op")
 
